@@ -24,11 +24,22 @@ struct test_exc {
 // ---- observation of one future ----
 static long to_long(int &x) { return x; }
 static long to_long(std::unique_ptr<int> &x) { return x ? *x : -12345; }   // move-only item; a moved-from item would show as -12345
+// copyable item whose move constructor / move assignment leave the source observably empty (like std::string / std::vector)
+struct MoveZero {
+    long v;
+    explicit MoveZero(long x) : v(x) {}
+    MoveZero(const MoveZero &o) : v(o.v) {}
+    MoveZero(MoveZero &&o) noexcept : v(o.v) { o.v = -54321; }
+    MoveZero &operator=(const MoveZero &o) { v = o.v; return *this; }
+    MoveZero &operator=(MoveZero &&o) noexcept { v = o.v; o.v = -54321; return *this; }
+};
+static long to_long(MoveZero &x) { return x.v; }
 template <typename X>
 static long to_long(X &x) { return (long)x; }
 template <typename T>
 static T make_item(long v) {
     if constexpr (std::is_same_v<T, std::unique_ptr<int>>) return std::make_unique<int>((int)v);
+    else if constexpr (std::is_same_v<T, MoveZero>) return MoveZero(v);
     else return (T)v;
 }
 template <typename F>
@@ -217,22 +228,24 @@ static void run_coro(const vh::Case &cs) {
 }
 
 // =============================== lq ===============================
-struct lq_open : limited_queue<int> {
-    using limited_queue<int>::limited_queue;
-    using queue<int>::unblock_pop;   // protected base of limited_queue: not reachable for ordinary users
+template <typename T>
+struct lq_open : limited_queue<T> {
+    using limited_queue<T>::limited_queue;
+    using queue<T>::unblock_pop;   // protected base of limited_queue: not reachable for ordinary users
 };
 
+template <typename T>
 static void run_limited(const vh::Case &cs) {
-    std::unique_ptr<lq_open> q;
+    std::unique_ptr<lq_open<T>> q;
     bool created = false;
-    Table<future<int>> pops;
+    Table<future<T>> pops;
     Table<future<void>> pushes;
     for (auto &op : cs.ops) {
         if (op.empty()) { reject(); continue; }
         long ret = 0;
         if (!created) {
             if (op[0] != 0 || op.size() != 2 || op[1] < 0) { reject(); continue; }
-            q = std::make_unique<lq_open>((std::size_t)op[1]);
+            q = std::make_unique<lq_open<T>>((std::size_t)op[1]);
             created = true;
         } else {
             if (!q) { reject(); continue; }
@@ -244,7 +257,7 @@ static void run_limited(const vh::Case &cs) {
             }
             if (want == 0 || op.size() != want) { reject(); continue; }
             switch (op[0]) {
-                case 1: ret = pushes.add([&] { return q->push((int)op[1]); }); break;
+                case 1: ret = pushes.add([&] { return q->push(make_item<T>(op[1])); }); break;
                 case 2: ret = pops.add([&] { return q->pop(); }); break;
                 case 3: { auto sp = q->unblock_pop(exc(op[1])); ret = (bool)sp; break; }
                 case 4: break;
@@ -469,7 +482,9 @@ int main(int argc, char **argv) {
         else if (cs.engine == "qv") run_plain<void>(cs);
         else if (cs.engine == "qm") run_plain<std::unique_ptr<int>>(cs);
         else if (cs.engine == "qc") run_coro(cs);
-        else if (cs.engine == "lq") run_limited(cs);
+        else if (cs.engine == "lq") run_limited<int>(cs);
+        else if (cs.engine == "lqm") run_limited<std::unique_ptr<int>>(cs);   // move-only items, pushed as rvalues
+        else if (cs.engine == "lqs") run_limited<MoveZero>(cs);               // item whose move constructor zeroes the source
         else if (cs.engine == "q2") run_two_phase(cs);
         else if (cs.engine == "qcb") run_callback(cs);
         std::printf("END\n");
